@@ -98,8 +98,10 @@ DecMap(rows, n) ==
       set == {i \in 1..Len(rows) : vals[i].k # "unset"}
   IN [t \in {rows[i].t : i \in set} |-> vals[CHOOSE i \in set : rows[i].t = t]]
 UnsetV == [k |-> "unset"]
+\* (one legacy spelling is a reading of the vocabulary term: documents this package wrote before carry "hrefLang")
+LegacyName(t) == IF t = "hreflang" THEN "hrefLang" ELSE t
 DecProp(t, kind, n) ==
-  LET x == Lookup(n, t) IN
+  LET x == IF Lookup(n, t).j = "none" THEN Lookup(n, LegacyName(t)) ELSE Lookup(n, t) IN
   CASE kind = "nlv" ->
          IF x.j = "str" THEN (IF x.v = "" THEN UnsetV ELSE Nlv(<<LR(NilTag, x.v)>>))
          ELSE IF x.j = "obj" THEN (IF x.m = <<>> THEN UnsetV ELSE NlvOfObj(x))
